@@ -244,6 +244,7 @@ def build(ctx):
     # the candidate list the merge matcher walks through: its contract is discharged on the real scorer (C03's unit), regenerated here
     include_stage(ctx, "C03", only=lambda mod, sub: [sub.unit(f"scorer[{m}]", lambda m=m: mod.unit_scorer(sub, m)) for m in MATCH_METRICS]
                   + [sub.unit("score_beats_threshold", lambda: mod.unit_beats(sub))])  # "meets the threshold" is exact, in the metric's direction
+    include_stage(ctx, "C04")  # match_instances = the merge matching followed by the relabelling of the prediction
     ctx.add_bounded("c14-enum", "c14.bounded")
     ctx.add_bounded("c14-fn-enum", "c14.bounded_fn")
 
